@@ -125,6 +125,9 @@ def build_leg(chinfo, spec, sign=1):
         leg = LegCharge.from_qflat(chinfo, qarr, spec['c'])
     elif ctor == 2 and len(sizes) == 1 and not np.any(qarr):
         leg = LegCharge.from_trivial(sizes[0], chinfo, spec['c'])
+    elif ctor == 3 and qarr.shape[0] >= 2 and qarr.shape[1] >= 2:
+        # a charge table in Fortran order (e.g. the transpose of an array of per-charge rows): a legal input of every constructor
+        leg = LegCharge.from_qind(chinfo, slices, np.asfortranarray(qarr), spec['c'])
     else:
         leg = LegCharge.from_qind(chinfo, slices, qarr, spec['c'])
     if sign == -1:
